@@ -329,7 +329,8 @@ fn message_cache() -> SimResult {
     let mut windows: Vec<Vec<usize>> = vec![vec![]; length];
     let mut live: BTreeMap<usize, M> = BTreeMap::new();
     let mut counts: BTreeMap<(usize, usize), u32> = BTreeMap::new();
-    let mut exact = true; // false once remove() left a stale history entry behind (then only upper bounds are checked)
+    let mut exact = true; // false once remove() left a stale history entry behind (then only upper bounds are checked for gossip)
+    let mut stale: BTreeSet<usize> = BTreeSet::new(); // ids with such a stale history entry: their IWANT answers are not judged
     let steps = 15 + choose(80);
     let nid = 6;
     let idb = |i: usize| vec![b'm', i as u8];
@@ -374,7 +375,7 @@ fn message_cache() -> SimResult {
                 let got = c.get_with_iwant_counts(&idb(i), &peers[p]);
                 match live.get(&i) {
                     Some(m) if m.validated => {
-                        if exact {
+                        if !stale.contains(&i) {
                             let n = counts.entry((i, p)).or_insert(0);
                             *n += 1;
                             let want = *n;
@@ -403,11 +404,12 @@ fn message_cache() -> SimResult {
                     counts.retain(|(m, _), _| *m != i);
                     // the history entry stays behind in the real cache; the model keeps its window entry too
                     exact = false;
+                    stale.insert(i);
                 }
             }
         }
     }
-    if shifted_out && exact {
+    if shifted_out && stale.len() < nid {
         mark_nontrivial();
     }
     note_val("cfg", (gossip * 8 + length) as u64);
